@@ -400,6 +400,8 @@ void splinetable<Alloc>::write_fits(const std::string& filePath) const{
 		fitsfile* fits;
 		fits_cleanup(fitsfile* f):fits(f){}
 		~fits_cleanup(){
+			if(!fits) //already closed
+				return;
 			int error=0;
 			fits_close_file(fits, &error);
 			fits_report_error(stderr, error);
@@ -407,6 +409,11 @@ void splinetable<Alloc>::write_fits(const std::string& filePath) const{
 	} cleanup(fits);
 	
 	write_fits_core(fits);
+	//flush and close explicitly so that a failure to do so is reported
+	cleanup.fits=nullptr;
+	fits_close_file(fits, &error);
+	if (error != 0)
+		throw std::runtime_error("CFITSIO failed to close "+filePath+" after writing");
 }
 	
 template<typename Alloc>
@@ -428,6 +435,8 @@ std::pair<void*,size_t> splinetable<Alloc>::write_fits_mem() const{
 			fitsfile* fits;
 			fits_cleanup(fitsfile* f):fits(f){}
 			~fits_cleanup(){
+				if(!fits) //already closed
+					return;
 				int error=0;
 				fits_close_file(fits, &error);
 				fits_report_error(stderr, error);
@@ -435,6 +444,11 @@ std::pair<void*,size_t> splinetable<Alloc>::write_fits_mem() const{
 		} cleanup(fits);
 		
 		write_fits_core(fits);
+		//flush and close explicitly so that a failure to do so is reported
+		cleanup.fits=nullptr;
+		fits_close_file(fits, &error);
+		if (error != 0)
+			throw std::runtime_error("CFITSIO failed to close the memory 'file' after writing");
 	}catch(std::exception& ex){
 		throw std::runtime_error("Failed to write FITS memory 'file': \n"+std::string(ex.what()));
 	}
